@@ -5,6 +5,81 @@ use vh::input::attrs_text;
 use vh::util::*;
 
 include!(concat!(env!("CARGO_MANIFEST_DIR"), "/gen/corpus_gen.rs"));
+mod shapes_gen {
+    include!(concat!(env!("CARGO_MANIFEST_DIR"), "/gen/shapes_gen.rs"));
+}
+
+fn body_source(b: &Value) -> String {
+    let fields = |style: &str| match style {
+        "named" => " { a: u8 }".to_string(),
+        "tuple" => "(u8, u16)".to_string(),
+        "newtype" => "(u8)".to_string(),
+        _ => String::new(),
+    };
+    match b["kind"].as_str().unwrap() {
+        "struct" => { let f = fields(b["style"].as_str().unwrap()); if f.ends_with('}') { format!("struct D{}", f) } else { format!("struct D{};", f) } }
+        "variant" => format!("enum D {{ V{} }}", fields(b["style"].as_str().unwrap())),
+        "enum" => format!("enum D {{ {} }}", b["vs"].as_array().unwrap().iter().enumerate().map(|(i, s)| format!("V{}{}", i, fields(s.as_str().unwrap()))).collect::<Vec<_>>().join(", ")),
+        "union" => "union D { a: u8, b: u16 }".to_string(),
+        k => panic!("body kind {}", k),
+    }
+}
+
+fn replay_shapes(path: &str) {
+    use darling::util::{Shape, ShapeSet};
+    let mut prop: Vec<Value> = vec![];
+    let mut nprop = 0u64;
+    let mut skipped = 0u64;
+    let cases = read_tagged(path, "REPLAY");
+    for c in &cases {
+        let mut ws: Vec<String> = c["words"].as_array().unwrap().iter().map(|s| s.as_str().unwrap().to_string()).collect();
+        ws.sort();
+        let key = ws.join(",");
+        let src = body_source(&c["body"]);
+        let di: syn::DeriveInput = syn::parse_str(&src).unwrap_or_else(|e| panic!("unparsable body {:?}: {}", src, e));
+        let r = catch(std::panic::AssertUnwindSafe(|| {
+            if c["body"]["kind"] == "variant" {
+                match &di.data { syn::Data::Enum(e) => shapes_gen::shape_variant(&key, &e.variants[0]), _ => unreachable!() }
+            } else {
+                shapes_gen::shape_di(&key, &di)
+            }
+        }));
+        let why = match r {
+            Err(p) => Some(format!("panicked: {}", p)),
+            Ok(None) => { skipped += 1; None }
+            Ok(Some(res)) => {
+                let eok = c["expect"]["ok"].as_bool().unwrap();
+                let en = c["expect"]["n"].as_u64().unwrap() as usize;
+                match res {
+                    Ok(()) if eok => None,
+                    Ok(()) => Some(format!("accepted, the table rejects it with {} error(s)", en)),
+                    Err(e) if eok => Some(format!("rejected ({}), the table accepts it", e)),
+                    Err(e) => if e.len() == en { None } else { Some(format!("{} error leaves, expected {} (one per non-conforming variant): {}", e.len(), en, e)) },
+                }
+            }
+        };
+        if let Some(w) = why {
+            nprop += 1;
+            if prop.len() < 40 { prop.push(json!({"case": c, "why": [format!("supports({}) on `{}`: {}", key, src, w)], "key": format!("shapes:{}:{}", key, src)})); }
+        }
+    }
+    // the stand-alone ShapeSet API
+    let api = read_tagged(path, "API");
+    let sh = |s: &str| match s { "named" => Shape::Named, "tuple" => Shape::Tuple, "newtype" => Shape::Newtype, _ => Shape::Unit };
+    for a in &api {
+        let set = ShapeSet::new(a["set"].as_array().unwrap().iter().map(|s| sh(s.as_str().unwrap())));
+        let s = sh(a["shape"].as_str().unwrap());
+        let got = (set.contains(&s), set.check(&s).is_ok(), set.is_empty());
+        let want = (a["contains"].as_bool().unwrap(), a["contains"].as_bool().unwrap(), a["empty"].as_bool().unwrap());
+        if got != want {
+            nprop += 1;
+            prop.push(json!({"case": a, "why": [format!("ShapeSet{} vs {}: (contains, check, is_empty) = {:?}, expected {:?}", a["set"], a["shape"], got, want)], "key": format!("shapeset:{}:{}", a["set"], a["shape"])}));
+        }
+    }
+    let samples: Vec<Value> = cases.iter().step_by((cases.len() / 3).max(1)).take(3).map(|c| json!({"words": c["words"], "body": body_source(&c["body"]), "expect": c["expect"]})).collect();
+    println!("{}", json!({"cases": cases.len() + api.len(), "prop_mismatch": nprop, "model_drift": 0, "prop": prop, "model": [], "samples": samples,
+                           "counts": {"derived_cases": cases.len() as u64 - skipped, "api_cases": api.len()}}));
+}
 
 /// attributes are rendered one per line; an element wrapper puts them after a first line
 fn raw_line_offset(raw: &RawOutcome, src: &str) -> usize {
@@ -21,6 +96,10 @@ fn raw_line_offset(raw: &RawOutcome, src: &str) -> usize {
 fn main() {
     std::panic::set_hook(Box::new(|_| {}));
     let args: Vec<String> = std::env::args().collect();
+    if args.len() >= 3 && args[1] == "replay-shapes" {
+        replay_shapes(&args[2]);
+        return;
+    }
     if args.len() < 3 || args[1] != "replay" {
         eprintln!("usage: vhc replay <tlc-output | cases.ndjson>");
         std::process::exit(2);
